@@ -13,7 +13,7 @@
 (* len, negative index into an infinite sequence, ...) is never generated. *)
 (* Walked with `tlc -simulate`.                                            *)
 (***************************************************************************)
-EXTENDS XrEval, Json, SequencesExt
+EXTENDS XrEval, Json, SequencesExt, FiniteSets
 
 CONSTANT Steps               \* operations per program
 PL == 40                     \* valid prefix carried for infinite sequences
@@ -66,6 +66,19 @@ SliceTerm(t, ops, i) ==
     ELSE SliceTerm([k |-> "call", f |-> ops[i][1], args |-> <<t, [k |-> "lit", ty |-> "int", v |-> ops[i][2]]>>, sty |-> "method"], ops, i + 1)
 Zip2(xs, ys) == [i \in 1..(IF Len(xs) < Len(ys) THEN Len(xs) ELSE Len(ys)) |-> StructV(<<xs[i], ys[i]>>)]
 
+\* k-element subsequences / k-permutations of a list of pairwise distinct elements (std/sequence.md: combinations,
+\* permutations; the ORDER in which they are listed is not documented - compared as sets - but combination(i, k)
+\* and permutation(i, k) must be the i-th entries of those listings)
+RECURSIVE Combs(_, _), Perms(_, _), SetSeq(_)
+Combs(xs, k) == IF k = 0 THEN {<<>>}
+                ELSE IF Len(xs) < k THEN {}
+                ELSE {<<xs[1]>> \o c : c \in Combs(Tail(xs), k - 1)} \cup Combs(Tail(xs), k)
+Without(xs, i) == SubSeq(xs, 1, i - 1) \o SubSeq(xs, i + 1, Len(xs))
+Perms(xs, k) == IF k = 0 THEN {<<>>}
+                ELSE UNION {{<<xs[i]>> \o q : q \in Perms(Without(xs, i), k - 1)} : i \in 1..Len(xs)}
+SetSeq(S) == IF S = {} THEN <<>> ELSE LET x == CHOOSE y \in S : TRUE IN <<x>> \o SetSeq(S \ {x})
+Distinct(xs) == \A a, b \in 1..Len(xs) : a # b => xs[a] # xs[b]
+
 VARIABLES pool, step, r
 svars == <<pool, step, r>>
 
@@ -109,7 +122,7 @@ Op(rr) ==
     IN IF S = {} THEN Source(rr)
     ELSE
     LET i == Ch(S, rr[1])  e == pool[i]  xs == e.v  n == Len(xs)
-        o == Ch(1..43, rr[2])
+        o == Ch(1..47, rr[2])
     IN
     IF e.inf THEN
         \* operations that are meaningful on an infinite sequence
@@ -231,6 +244,27 @@ Op(rr) ==
                    LET m == 3 + (rr[3] % 2)
                        ops == [j \in 1..m |-> <<IF (rr[4] \div (2 ^ j)) % 2 = 0 THEN "skip" ELSE "take", (rr[4 + j] % (n + 2))>>]
                    IN NewSeq(SliceRun(xs, ops, 1), FALSE, e.ety, SliceTerm(V(i), ops, 1))
+      \* ---- combinatorics written in the language (over short lists of distinct ints) ----
+      [] o = 44 /\ e.ety = "int" /\ n <= 5 /\ Distinct(xs) ->
+                   LET k == Ch(0..(n + 1), rr[3])
+                   IN IF k > n THEN NewErr("seq", "int", Call("to_array", <<Call("combinations", <<V(i), Lit(k)>>)>>))
+                      ELSE [NewSeq([j \in 1..Cardinality(Combs(xs, k)) |-> SeqV(SetSeq(Combs(xs, k))[j])], FALSE, "bag",
+                                   Call("to_array", <<Call("combinations", <<V(i), Lit(k)>>)>>)) EXCEPT !.k = "bag"]
+      [] o = 45 /\ e.ety = "int" /\ n <= 4 /\ Distinct(xs) ->
+                   LET k == Ch(0..n, rr[3])
+                   IN [NewSeq([j \in 1..Cardinality(Perms(xs, k)) |-> SeqV(SetSeq(Perms(xs, k))[j])], FALSE, "bag",
+                              Call("to_array", <<Call("permutations", <<V(i), Lit(k)>>)>>)) EXCEPT !.k = "bag"]
+      \* the i-th combination / permutation is the i-th entry of the listing
+      [] o = 46 /\ e.ety = "int" /\ n <= 5 /\ n >= 1 /\ Distinct(xs) ->
+                   LET k == Ch(1..n, rr[3])  c == Cardinality(Combs(xs, k))  idx == Ch(0..(c - 1), rr[4])
+                   IN NewVal("bool", BoolV(TRUE), [k |-> "call", f |-> "eq", sty |-> "op",
+                             args |-> <<Call("combination", <<V(i), Lit(idx), Lit(k)>>),
+                                        Call("get", <<Call("to_array", <<Call("combinations", <<V(i), Lit(k)>>)>>), Lit(idx)>>)>>])
+      [] o = 47 /\ e.ety = "int" /\ n <= 4 /\ n >= 1 /\ Distinct(xs) ->
+                   LET k == Ch(1..n, rr[3])  c == Cardinality(Perms(xs, k))  idx == Ch(0..(c - 1), rr[4])
+                   IN NewVal("bool", BoolV(TRUE), [k |-> "call", f |-> "eq", sty |-> "op",
+                             args |-> <<Call("permutation", <<V(i), Lit(idx), Lit(k)>>),
+                                        Call("get", <<Call("to_array", <<Call("permutations", <<V(i), Lit(k)>>)>>), Lit(idx)>>)>>])
       [] OTHER -> Source(rr)
 
 Init == pool = <<>> /\ step = 0 /\ r = <<>>
@@ -242,6 +276,7 @@ Spec == Init /\ [][Next]_svars
 
 ProjE(e) ==
     IF e.err THEN [t |-> "err", m |-> "?"]
+    ELSE IF e.k = "bag" THEN [t |-> "bagseq", v |-> [i \in 1..Len(e.v) |-> Proj(e.v[i])]]
     ELSE IF e.k = "seq" THEN [t |-> "seq", inf |-> e.inf, v |-> [i \in 1..(IF e.inf THEN 10 ELSE Len(e.v)) |-> Proj(e.v[i])]]
     ELSE Proj(e.v)
 
